@@ -1,4 +1,4 @@
 (* Proofs/C04_Sweep5.v — shard 5 of 8 of the bounded whole-function sweep (kernel VM computation) *)
 Require Import OV.Base.Bytes OV.Model.C04 OV.Model.C04_Spec OV.Model.C04_Sweep.
 Lemma sweep_shard_5 : forallb check_case (shard 8 5 family_quick) = true.
-Proof. vm_compute. reflexivity. Qed.
+Proof. vm_cast_no_check (eq_refl true). Qed.   (* one evaluation, by the kernel VM at Qed *)
